@@ -169,6 +169,8 @@ Theorem C17_add_vertex_keeps_representation : forall (c : cplx) K,
 Proof. exact add_vertex_keeps_representation. Qed.
 Print Assumptions C17_add_vertex_keeps_representation.
 
+Example C17_fresh_instance : fresh K_triangle (slots full_triangle) /\ wf_slots full_triangle.
+Proof. exact fresh_instance. Qed.
 (* non-vacuity of F: the full triangle 012 built by the transcribed operations represents the complex of the non-empty faces of
    [0;1;2], which is closed, contains [0;1;2], [0], [0;1], and has no large blocker *)
 Example C17_representation_instance : represents full_triangle K_triangle /\ closed K_triangle /\
